@@ -628,3 +628,15 @@ _EQ2_PROPS = {'A1': 'C01,C02,C03,C10,C19', 'A2': 'C04,C03,C01', 'A3': 'C05,C06,C
 for _a, _p in _EQ2_PROPS.items():
     for _e in ('e1', 'e2', 'e3', 'e4'):
         M.append(dict(id='eqagent2-%s-%s' % (_a, _e), patch=_os.path.join(_P, 'eqagents2', '%s-%s.diff' % (_a, _e)), props=_p, expect='silent', rule=None))
+# breaking variants built on top of round-2 refactorings: the generalised rules must still fire through the new shapes
+for _id, _props, _rule in (('foreach-no-clear', 'C05,C08', 'C05.P'), ('statichelper-no-guard', 'C11', 'C11.O2'), ('atomic-helper-postinc', 'C20,C02', 'C20.P'),
+                           ('inlined-pred-wrong-polarity', 'C07', 'C07.W4'), ('mergedloop-no-clear', 'C05,C08', 'C05.P'), ('destroyhelper-large-only', 'C08,C17', 'C08.O'),
+                           ('refalias-find-before-lock', 'C03', 'C03.L1'), ('executearound-on-copy', 'C04', 'C04.F'), ('unlinkhelper-no-mark', 'C02', 'C02.T4'),
+                           ('steps-no-guard', 'C11', 'C11.O2'), ('foreach-walk-no-remove', 'C15', 'C15.P2'), ('namedclosure-pred-or', 'C07,C11', 'C07.W2'),
+                           ('steps-emplace-on-queuelist', 'C13,C05', 'C13.S1')):
+    M.append(dict(id='eq2var-' + _id, patch=_os.path.join(_P, 'eq2var', _id + '.diff'), props=_props, expect='fire', rule=_rule))
+m('anydata-dtor-large-only', 'utilities/anydata.h', """		if(functions != nullptr) {
+			functions->free(buffer.data());
+		}""", """		if(functions != nullptr && isLargerData()) {
+			functions->free(buffer.data());
+		}""", 'C08,C17', 'fire', 'C08.O')
